@@ -231,16 +231,20 @@ class Planner:
         self.nops += 1
         return op
 
-    def new_dep(self, ops, quantize=True, family=None, force=None):
+    def new_dep(self, ops, quantize=True, family=None, force=None, like=None):
         from . import archs
 
         r = self.rng
         a = Abs(self.next_dep)
         self.next_dep += 1
-        a.family = family or r.choice(self.sw["family"])
-        a.arch, a.in_shape = self.gen_mlp() if a.family == "mlp" else self.gen_cnn()
-        a.dtype = r.choice(self.sw["dt"])
-        a.wcls = r.choice(WCLS_RARE) if (self.sw["rare_w"] and r.random() < 0.5) else r.choice(WCLS)
+        if like is not None:
+            # a second model of the same architecture and dtype (quantized differently, calibrated side by side)
+            a.family, a.arch, a.in_shape, a.dtype, a.wcls = like.family, copy.deepcopy(like.arch), list(like.in_shape), like.dtype, like.wcls
+        else:
+            a.family = family or r.choice(self.sw["family"])
+            a.arch, a.in_shape = self.gen_mlp() if a.family == "mlp" else self.gen_cnn()
+            a.dtype = r.choice(self.sw["dt"])
+            a.wcls = r.choice(WCLS_RARE) if (self.sw["rare_w"] and r.random() < 0.5) else r.choice(WCLS)
         a.init = self.S.sub("init", a.id)
         a.leaves = [(p, s["k"]) for p, s in archs.walk_leaves(a.arch) if s["k"] in ("lin", "conv", "ln")]
         self.deps[a.id] = a
@@ -278,7 +282,9 @@ class Planner:
             if 0 in self.sw["lead_ranks"] and r.random() < 0.5:
                 lead = []  # un-batched (C, H, W) input
         else:
-            rank = r.choice(self.sw["lead_ranks"])
+            # C11 is quantified over input ranks 2..4: no un-batched rank-1 input to a Linear there
+            ranks = [k for k in self.sw["lead_ranks"] if k > 0 or self.prop != "C11"] or [1]
+            rank = r.choice(ranks)
             lead = [r.choice([1, 2, 3, 4, 17]) if i == 0 else r.choice([1, 2, 3]) for i in range(rank)]
         desc = {"seed": self.S.sub("input", a.id, len(a.inputs), self.nops), "lead": lead, "cls": r.choice(self.sw["icls"]), "mag": r.choice([1.0, 1.0, 0.1, 10.0, 1e-2, 1e2])}
         if self.sw["qinput"] and r.random() < 0.3 and a.activations is not None:
@@ -562,7 +568,7 @@ def h_save(P, ops, a, ser=None, fault=False):
     r = P.rng
     fid = P.next_fid
     P.next_fid += 1
-    op = {"op": "save", "dep": a.id, "fid": fid, "ser": ser or r.choice(["pickle_bytes", "pickle_file", "safetensors"])}
+    op = {"op": "save", "dep": a.id, "fid": fid, "ser": ser or r.choice(["pickle_bytes", "pickle_file", "safetensors", "safetensors", "direct"])}
     if fault and r.random() < 0.3:
         op["fault"] = {"kind": "write_fail", "offset": logu(r, 1, 20000), "err": r.choice(["ENOSPC", "EIO"])}
     P.emit(ops, op)
@@ -591,10 +597,22 @@ def h_load(P, ops, fid, target=None, restart=None):
     if r.random() < 0.4:
         op["reorder"] = r.choice(["reverse", "strings_first", "perm"])
         op["perm_seed"] = P.S.sub("perm", a.id) % 100000
+    # sometimes load into a model that already went through a load (same architecture) instead of a fresh one
+    prev = [b for b in P.deps.values() if b is not src and getattr(b, "loaded", False) and b.arch == src.arch and b.dtype == src.dtype]
+    if prev and r.random() < 0.35:
+        b = r.choice(prev)
+        op["into"] = b.id
+        op["target"] = "same"
+        P.emit(ops, op)
+        for k in ("weights", "activations", "frozen", "calibrated"):
+            setattr(b, k, copy.deepcopy(getattr(src, k)))
+        b.inputs = copy.deepcopy(src.inputs)
+        return b
     if restart if restart is not None else r.random() < 0.4:
         op["restart"] = True
         P.deps.pop(src.id, None)
     P.emit(ops, op)
+    a.loaded = True
     P.deps[a.id] = a
     return a
 
@@ -741,7 +759,7 @@ def plan_c11(P):
     ops = []
     P.sw["qinput"] = False
     deps = prelude(P, ops, calib_p=0.85)
-    table = [("train", 8), ("wupdate", 3), ("forward", 2), ("freeze", 1), ("newdep", 0.7), ("calib", 0.5), ("saveload", 0.3)]
+    table = [("train", 8), ("wupdate", 3), ("forward", 2), ("freeze", 1), ("newdep", 0.7), ("calib", 1.2), ("saveload", 0.3)]
     lifecycle(P, ops, table, r.randint(3, 9), faults=False)
     return ops
 
@@ -756,7 +774,15 @@ def plan_c12(P):
     st = r.choice([False, False, False, True])
     qmax = {"qint8": 127.0, "qfloat8": 448.0, "qfloat8_e4m3fn": 448.0, "qfloat8_e5m2": 57344.0}
     ndeps = r.choice([1, 1, 2])
-    deps = [P.new_dep(ops) for _ in range(ndeps)]
+    deps = [P.new_dep(ops)]
+    twin = None
+    if ndeps == 2:
+        if r.random() < 0.5:
+            other_aq = [q for q in AQ if q != deps[0].activations]
+            twin = P.new_dep(ops, like=deps[0], force={"activations": r.choice(other_aq)})
+            deps.append(twin)
+        else:
+            deps.append(P.new_dep(ops))
     nctx = r.randint(1, 3)
     faults = bool(P.cfg.get("faults"))
     for c in range(nctx):
@@ -777,7 +803,11 @@ def plan_c12(P):
                     desc["mag"] = qmax[a.activations] * 2.0 ** r.choice([0, 0, 1, -1, -3, 2])
                 else:
                     desc["mag"] = base * r.choice([1.0, 2.0, 4.0, 0.5, 0.25, 3.0])
-                if len(deps) > 1 and r.random() < 0.2:
+                if twin is not None and a in (deps[0], twin) and twin in deps and "fault" not in op and r.random() < 0.5:
+                    # the same batch object goes through the sibling model as well
+                    b = twin if a is deps[0] else deps[0]
+                    P.emit(bops, {"op": "forward", "dep": b.id, "input": copy.deepcopy(desc), "same_tensor": True})
+                elif len(deps) > 1 and r.random() < 0.2:
                     P.forward(bops, r.choice(deps), fresh=True, fault=False)
 
         op = P.calib(ops, body, 0, inst="reuse" if (c > 0 and r.random() < 0.25) else "fresh")
